@@ -223,6 +223,13 @@ static void observe(const char* label, const Node& n)
    v5.enter_again = &n;
    v5.as_visitor = &v5;
    n.accept(v5);
+   // the library's own visitor base (`Constant_visitor<F>`: every abstract hook forwards to F) with ONE hook overridden, the Expr one:
+   // a node reaches it exactly as often as the default chain above enters the Expr hook (classic expressions get there through Classic)
+   struct Through_constant_visitor : ipr::Constant_visitor<ipr::No_op> {
+      int exprs = 0;
+      void visit(const ipr::Expr&) override { ++exprs; }
+   } v6;
+   n.accept(v6);
    const char* remaster = "-";
    if (auto* d = dynamic_cast<const ipr::Decl*>(&n)) {
       try { remaster = dynamic_cast<const void*>(&d->master()) == v1.target ? "0" : "1"; }
@@ -230,10 +237,10 @@ static void observe(const char* label, const Node& n)
    }
    const char* mangled = typeid(n).name();
    if (*mangled == '*') ++mangled;                       // internal-linkage types
-   std::printf("node\t%s\tcls=%s\tsym=%s\tcat=%d\tdyn=%s\tabsdyn=%s\tfired=%s\tchain=%s\tview1=%s\tview2=%s\tfiredself=%s\tchainself=%s\tremaster=%s\trechain=%s\tnested=%s\trefired=%s\n",
+   std::printf("node\t%s\tcls=%s\tsym=%s\tcat=%d\tdyn=%s\tabsdyn=%s\tfired=%s\tchain=%s\tview1=%s\tview2=%s\tfiredself=%s\tchainself=%s\tremaster=%s\trechain=%s\tnested=%s\trefired=%s\tcvexpr=%d\n",
                label, cls.c_str(), mangled, static_cast<int>(n.category), join(dyn).c_str(), join(absdyn).c_str(),
                join(v1.fired).c_str(), join(v2.fired).c_str(), join(view1).c_str(), join(view2).c_str(),
-               join(v1.self).c_str(), join(v2.self).c_str(), remaster, join(v3.fired).c_str(), join(v4.fired).c_str(), join(v5.fired).c_str());
+               join(v1.self).c_str(), join(v2.self).c_str(), remaster, join(v3.fired).c_str(), join(v4.fired).c_str(), join(v5.fired).c_str(), v6.exprs);
 }
 
 // view<K> asked through the STATIC type the factory handed out (an implementation class, or an interface more derived than Node) must
@@ -602,6 +609,9 @@ static void build_and_observe(unsigned variant)
    obs("make_block", block);
    auto* handler = block->new_handler(id, T);
    obs("Block::new_handler", handler);
+   obs("make_block (now a try-block: it has a handler)", block);
+   block->new_handler(id2, U);
+   obs("make_block (two handlers)", block);
    obs("Handler::exception", handler->exception());
    obs("Handler::body", static_cast<const impl::Handler*>(handler)->body());
    const ipr::Region& ehr = static_cast<const impl::Handler*>(handler)->body().region().enclosing();
